@@ -48,6 +48,11 @@ CMDS_FMT = ["text", "json", "sarif"]
 DATA = core.VERIF / "harness" / "data"
 
 
+# command-line threshold options per command (the documented ones), used for the option runs on the rich project
+CMD_OPTS = {"nesting": ["--max-depth", "2"], "srp": ["--max-methods", "3", "--max-loc", "40"], "dry": ["--min-lines", "3"],
+            "pipeline": ["--min-continues", "1"]}
+
+
 def write_rich(proj: Path) -> None:
     """a project in which (nearly) every rule id of every linter fires: the per-linter trigger files of C15 plus a showcase
     for the cross-file and configuration-dependent rules (stringly-typed kinds, file-placement, lbyl kinds, cqs, pipeline ...)"""
@@ -176,6 +181,17 @@ def impl_case(args) -> dict:
                         rec["parse_err"] = str(e)[:100]
                 rec["raw"] = txt[:300] if rec.get("doc") is None else ""
                 out["runs"].append(rec)
+        # option runs (rich project only): the same command with its threshold options, quietly and with the global --verbose
+        out["optruns"] = []
+        if variant == "rich":
+            for c in cmds:
+                opts = CMD_OPTS.get(c, [])
+                for fmt in CMDS_FMT:
+                    rec = {"cmd": c, "fmt": fmt, "opts": opts}
+                    for mode, pre in (("quiet", []), ("verbose", ["--verbose"])):
+                        code, raw, exc = run_cli_bytes(pre + ["--project-root", str(proj), c] + opts + ["--format", fmt, str(proj)], cwd=proj)
+                        rec[mode] = {"exit": code, "exc": exc, "out": raw.decode("utf-8", "replace")}
+                    out["optruns"].append(rec)
     except Exception as exc:  # noqa: BLE001
         import traceback
         out["errors"].append(f"{type(exc).__name__}: {exc} {traceback.format_exc()[-500:]}")
@@ -317,6 +333,54 @@ def run(tier: str, seed: int, st: core.ProofStatus) -> core.Result:
             if len(res.samples) < 3 and vs and fmt == "sarif" and ni in (1, 7):
                 res.samples.append({"file": case0["name"], "cmd": c, "format": fmt, "violations": len(vs), "exit": rec["exit"],
                                     "first_result": rec["doc"]["runs"][0]["results"][0] if rec["doc"] else None})
+    # option runs: --verbose must not change what is written to stdout, and the three renderings of a run with options agree
+    for (i, ni, var, cs, _r), im in zip(work, impls):
+        by_cmd = {}
+        for rec in im.get("optruns", []):
+            res.evaluations += 1
+            res.bump("option runs", f"{rec['cmd']} {' '.join(rec['opts'])}".strip())
+            q, v = rec["quiet"], rec["verbose"]
+            case = {"variant": var, "cmd": rec["cmd"], "options": rec["opts"], "format": rec["fmt"]}
+            problems = []
+            if q["exc"] or v["exc"]:
+                problems.append(f"unhandled exception: {q['exc'] or v['exc']}")
+            if q["exit"] != v["exit"] or q["out"] != v["out"]:
+                problems.append(f"--verbose changes the command's stdout / exit ({q['exit']} vs {v['exit']}): first lines {q['out'][:80]!r} vs {v['out'][:80]!r}")
+            doc = None
+            if rec["fmt"] == "text":
+                doc = parse_text(q["out"].rstrip("\n"))
+            else:
+                try:
+                    doc = json.loads(q["out"])
+                except Exception as e:  # noqa: BLE001
+                    problems.append(f"stdout is not {rec['fmt']}: {e}")
+            by_cmd.setdefault(rec["cmd"], {})[rec["fmt"]] = (doc, q["exit"])
+            if problems:
+                res.disagreements.append(core.Disagreement(case=case, impl={"quiet": q["out"][:300], "verbose": v["out"][:300]}, model=None, spec=None, property_fails=True,
+                                                           note=" | ".join(problems)[:1500]))
+        for c, docs in by_cmd.items():
+            if not all(k in docs and docs[k][0] is not None for k in CMDS_FMT):
+                continue
+            jd = docs["json"][0]
+            vs = [{"rule_id": v["rule_id"], "file_path": v["file_path"], "line": v["line"], "column": v["column"], "message": v["message"]} for v in jd.get("violations", [])]
+            m = dec(drv.call(enc({"prop": PROP, "violations": vs, "san": []})))
+            problems = []
+            if jd.get("total") != len(vs):
+                problems.append(f"JSON total {jd.get('total')} with {len(vs)} listed violations")
+            if docs["text"][0] != m["text"]:
+                problems.append(f"text rendering of the run with options differs from the JSON one: {len(docs['text'][0])} vs {len(m['text'])} entries")
+            try:
+                if docs["sarif"][0]["runs"][0]["results"] != m["sarif"]["runs"][0]["results"]:
+                    problems.append(f"SARIF results of the run with options differ from the JSON one: {len(docs['sarif'][0]['runs'][0]['results'])} vs {len(vs)}")
+            except (KeyError, IndexError, TypeError) as e:
+                problems.append(f"SARIF structure: {e}")
+            if len({docs[k][1] for k in CMDS_FMT}) != 1 or docs["json"][1] != m["exit"]:
+                problems.append(f"exit codes {[docs[k][1] for k in CMDS_FMT]} for {len(vs)} violations")
+            if vs:
+                res.nontrivial.add(core.canon(["opt", c]))
+            if problems:
+                res.disagreements.append(core.Disagreement(case={"variant": "rich", "cmd": c, "options": CMD_OPTS.get(c, [])}, impl=None, model=None, spec=None, property_fails=True,
+                                                           note=" | ".join(problems)[:1500]))
     # usage errors
     for desc, args, outcome, code, so, se in usage:
         res.evaluations += 1
